@@ -207,3 +207,6 @@ func DynCallees(c ssa.CallInstruction) ([]*ssa.Function, bool) {
 	fns, complete := FuncValues(cc.Value)
 	return fns, complete && len(fns) > 0
 }
+
+// FieldStoresInPkg is the exported form of fieldStoresInPkg.
+func FieldStoresInPkg(fa *ssa.FieldAddr) []*ssa.Store { return fieldStoresInPkg(fa) }
